@@ -10,10 +10,9 @@ NOTE = ("Trusted: rustc MIR construction/name resolution (nightly, mir-opt-level
         "ww_static/rules, identity of the registry and workspace copies of white-whale-std (measured each run).")
 
 CLAIMED = {
-    "C13": ("paired-update provenance (closure-resolved) + telescoping dependency rule + sibling operation-multiset agreement + ordering-domain walks",
+    "C13": ("paired-update provenance (closure-resolved) + telescoping dependency rule + sibling reward-formula skeleton + record-once + cap walk + ordering-domain walks",
             "GLOBAL_WEIGHT and ADDRESS_WEIGHT are updated with one value in one direction and the history gets the saved weight at epoch+1; "
-            "expand's increment depends on the stored position total because close removes f(total); claim and the rewards query agree as "
-            "multisets of operations up to a frozen claim-only list; second claim in an epoch rejected before any effect; reward <= emission and "
+            "expand's increment depends on the stored position total because close removes f(total); claim and the rewards query compute the per-epoch reward by the same formula skeleton, record an epoch's emission once, claim saves every flow update and lets exactly 100 epochs through; second claim in an epoch rejected before any effect; reward <= emission and "
             "claimed <= funded gate every transfer; weight domain and max(computed, amount). Share-sum under snapshot placement: not decided.", "§4 C13"),
     "C14": ("sibling agreement: argument-provenance classes, field mappings, direction tables with constant indices, operand-shape comparison",
             "Simulation and execution feed compute_swap from the same classes (pool reads minus pending fees, pool_fees, type/invariant, decimals) "
